@@ -437,6 +437,10 @@ def cmpfail_obligations(pid, tier, seed):
                 if tier == 'quick' and m > 4 and (g in ('range', 'inplace', 'bulk', 'read') or tag != 'core'
                                                   or (kind == 'TreeSet' and g != 'del')):
                     continue
+                if tier == 'quick' and g in ('range', 'inplace', 'bulk') and (m > 3 or tag != 'core'):
+                    continue
+                if tier == 'quick' and m >= 3 and len(argn) == 2:
+                    argn = ['x']        # second argument key = first (thorough keeps both symbolic)
                 args = [(n, 'int') for n in argn] + [('op', 'int'), ('f', 'int')]
                 P = dict(family='OO', impl=impl, kind=kind, tpl=tpl, L=L, I=I, group=g, prov='loaded')
                 obs.append(dict(id='%s/%s/%s/%s%s/%s/%s' % (pid, impl, kind, tag, '' if (L, I) == (2, 2) else '%d%d' % (L, I), sid(tpl), g),
